@@ -39,11 +39,29 @@ Qed.
 Lemma in_times e j : In e j -> In (e_time e) (times j).
 Proof. intro H. unfold times. apply in_map. exact H. Qed.
 
-(* the bounds survive the i64 -> u64 cast when they are representable *)
+(* the clamped conversion selects the same entries as the bound itself, for valid
+   (positive) receive times *)
+Lemma realtime_of_i64_max x : x < 18446744073709551616 -> realtime_of_i64 x = Z.max 0 x.
+Proof. intro H. unfold realtime_of_i64, u64_of_i64. apply Z.mod_small. lia. Qed.
+
+Lemma in_window_clamp A B t :
+  0 < t -> bound_rep A -> bound_rep B ->
+  in_window (bound_us A) (bound_us B) t = in_window A B t.
+Proof.
+  intros Ht HA HB. unfold in_window. f_equal.
+  - destruct A as [a|]; [|reflexivity]. cbn [bound_us option_map]. cbn in HA.
+    rewrite (realtime_of_i64_max _ HA).
+    destruct (a <=? t) eqn:E; [apply Z.leb_le in E; apply Z.leb_le; lia|apply Z.leb_gt in E; apply Z.leb_gt; lia].
+  - destruct B as [b|]; [|reflexivity]. cbn [bound_us option_map]. cbn in HB.
+    rewrite (realtime_of_i64_max _ HB).
+    destruct (t <=? b) eqn:E; [apply Z.leb_le in E; apply Z.leb_le; lia|apply Z.leb_gt in E; apply Z.leb_gt; lia].
+Qed.
+
+(* non-negative bounds are not changed by either conversion *)
 Lemma bound_us_ok b : bound_ok b -> bound_us b = b.
 Proof.
   destruct b as [x|]; simpl; intro H; [|reflexivity].
-  unfold u64_of_i64. rewrite Z.mod_small by exact H. reflexivity.
+  rewrite realtime_of_i64_max by lia. f_equal. lia.
 Qed.
 
 Definition lower (A : option Z) (t : Z) : bool := match A with None => true | Some a => a <=? t end.
@@ -108,33 +126,34 @@ Section WithOracle.
   Qed.
 
   Theorem journal_out_correct_l : forall j A B,
-    nondecreasing (times j) -> bound_ok A -> bound_ok B ->
+    nondecreasing (times j) -> valid_realtimes (times j) -> bound_rep A -> bound_rep B ->
     journal_run sd_seek_head sd_seek_realtime stop_after A B j = window e_time A B j.
   Proof.
-    intros j A B Hs HA HB. unfold journal_run, window.
-    rewrite (bound_us_ok _ HA), (bound_us_ok _ HB), (analyze_is_filter _ _ Hs).
-    apply loop_after_seek. exact Hs.
+    intros j A B Hs Hv HA HB. unfold journal_run, window.
+    rewrite (analyze_is_filter _ _ Hs), (loop_after_seek _ _ _ Hs).
+    apply filter_ext_in. intros e He. apply in_window_clamp; [|exact HA|exact HB].
+    apply Hv. apply in_times. exact He.
   Qed.
 
   (* each in-window entry is printed, nothing else is, and nothing is printed twice *)
   Theorem journal_out_each_once_l : forall j A B,
-    nondecreasing (times j) -> bound_ok A -> bound_ok B ->
+    nondecreasing (times j) -> valid_realtimes (times j) -> bound_rep A -> bound_rep B ->
     let out := journal_run sd_seek_head sd_seek_realtime stop_after A B j in
     (forall e, In e out <-> In e j /\ in_window A B (e_time e) = true) /\
     (NoDup j -> NoDup out) /\
     length out = length (window_idx A B (times j)).
   Proof.
-    intros j A B Hs HA HB out. subst out. rewrite (journal_out_correct_l _ _ _ Hs HA HB).
+    intros j A B Hs Hv HA HB out. subst out. rewrite (journal_out_correct_l _ _ _ Hs Hv HA HB).
     unfold window. split; [|split].
     - intro e. apply filter_In.
     - apply NoDup_filter.
-    - unfold window_idx. generalize 0%N. clear Hs. induction j as [|e r IH]; intro i; [reflexivity|].
+    - unfold window_idx. generalize 0%N. clear Hs Hv. induction j as [|e r IH]; intro i; [reflexivity|].
       cbn [times map filter window_idx_from]. destruct (in_window A B (e_time e)); cbn [length]; rewrite (IH (i + 1)%N); reflexivity.
   Qed.
 
   (* bytes on stdout, any rendering *)
   Theorem journal_stdout_correct_l : forall r j A B,
-    nondecreasing (times j) -> bound_ok A -> bound_ok B ->
+    nondecreasing (times j) -> valid_realtimes (times j) -> bound_rep A -> bound_rep B ->
     journal_stdout sd_seek_head sd_seek_realtime stop_after r A B j
     = concat (map (render r) (window e_time A B j)).
   Proof.
@@ -170,19 +189,37 @@ Example journal_upper_bound_witness_repaired :
   journal_run ref_seek_head ref_seek_realtime stop_after (Some 5) (Some 5) w_journal = [w_entry 5].
 Proof. vm_compute. reflexivity. Qed.
 
-(* ---- refuted: a bound before 1970 wraps in the i64 -> u64 cast, so [bound_ok]
-   is a necessary hypothesis of journal_out_correct *)
+(* ---- regression: with the conversion before the repair (`as u64` without the clamp) a
+   bound before 1970 wrapped, and every entry was dropped *)
 Lemma journal_pre_epoch_bound_refuted_l :
-  exists j A B, nondecreasing (times j) /\
+  exists j A B, nondecreasing (times j) /\ valid_realtimes (times j) /\ bound_rep A /\ bound_rep B /\
+    journal_run_wrapping ref_seek_head ref_seek_realtime stop_after A B j <> window e_time A B j.
+Proof.
+  exists w_journal, (Some (-1)), None. split; [cbn; lia|]. split.
+  - intros t [<-|[<-|[]]]; cbn; lia.
+  - split; [cbn; lia|]. split; [exact I|]. vm_compute. discriminate.
+Qed.
+
+(* with the clamp the same witness is handled *)
+Example journal_pre_epoch_witness_repaired :
+  journal_run ref_seek_head ref_seek_realtime stop_after (Some (-1)) None w_journal = w_journal
+  /\ journal_run ref_seek_head ref_seek_realtime stop_after None (Some (-1)) w_journal = [].
+Proof. split; vm_compute; reflexivity. Qed.
+
+(* [valid_realtimes] is needed: an (invalid) entry stamped exactly 0 would be printed
+   for an upper bound before 1970 *)
+Lemma journal_zero_time_refuted_l :
+  exists j A B, nondecreasing (times j) /\ bound_rep A /\ bound_rep B /\
     journal_run ref_seek_head ref_seek_realtime stop_after A B j <> window e_time A B j.
 Proof.
-  exists w_journal, (Some (-1)), None. split; [cbn; lia|].
+  exists [w_entry 0], None, (Some (-1)). split; [cbn; lia|]. split; [exact I|]. split; [cbn; lia|].
   vm_compute. discriminate.
 Qed.
 
 (* hypotheses of journal_out_correct are satisfiable, non-trivially *)
 Example journal_out_example :
   nondecreasing (times [w_entry 1; w_entry 5; w_entry 5; w_entry 9]) /\
+  valid_realtimes (times [w_entry 1; w_entry 5; w_entry 5; w_entry 9]) /\
   journal_run ref_seek_head ref_seek_realtime stop_after (Some 5) (Some 5)
     [w_entry 1; w_entry 5; w_entry 5; w_entry 9] = [w_entry 5; w_entry 5].
-Proof. split; [cbn; lia | vm_compute; reflexivity]. Qed.
+Proof. split; [cbn; lia|]. split; [intros t [<-|[<-|[<-|[<-|[]]]]]; cbn; lia | vm_compute; reflexivity]. Qed.
